@@ -396,3 +396,7 @@ TWINS = [
     V('c03-t-mask-hex', _E, 'self._binary_fill_value = binary_fill_value & 0xff', 'self._binary_fill_value = 0xFF & binary_fill_value'),
     V('c03-t-key-order', _E, 'byte_map[lobj.address + offset] = byte_value', 'byte_map[offset + lobj.address] = byte_value'),
 ]
+MUTANTS += [
+    V('c03-end-zero-is-falsy', _M, "int(binary_min_address), int(binary_max_address) if int(binary_max_address) >= 0 else None,",
+      "int(binary_min_address), (int(binary_max_address) or None) if int(binary_max_address) >= 0 else None,", 'C03.6'),
+]
